@@ -4,9 +4,9 @@ import sys
 L = 40
 out = ['harnesses! {']
 for n in range(0, L + 1):
-    for k in (1, 2, 8, 32):
+    for k in (0, 1, 2, 8, 32):
         out.append('    read_n%d_k%d [34] => read_bytes_contract::<%d, %d>(&any(), any());' % (n, k, n, k))
-    for k in (1, 2, 8):
+    for k in (0, 1, 2, 8):
         if n <= 16: out.append('    read_str_n%d_k%d [34] => read_str_contract::<%d, %d>(&any(), any());' % (n, k, n, k))
     if n in (0, 1, 3, 9, 33):
         for k in (2, 8): out.append('    read_deref_n%d_k%d [34] => read_deref_contract::<%d, %d>(&any(), any());' % (n, k, n, k))
